@@ -2,35 +2,51 @@
 (***************************************************************************)
 (* Design check of Hash.tla: every world over N chunks (all import graphs, *)
 (* cycles included) and one asset, every option combination, and every     *)
-(* single-atom edit.  One state = one (world, edit) pair.                  *)
+(* single-atom edit and single-option edit (public path switched on, asset *)
+(* name template, source map mode, legal comment mode).  One state = one   *)
+(* (world, edit) pair.                                                     *)
+(*                                                                         *)
+(* drop = {} and lih = mih = TRUE is the design: all four properties must  *)
+(* hold (AllHold).  Every other variant is a MUTANT of the naming          *)
+(* function (one ingredient left out of the hashes): its failing classes   *)
+(* are exported, which shows that each ingredient is necessary and which   *)
+(* single-atom edit reveals that it is missing.                            *)
 (***************************************************************************)
 EXTENDS Hash, Json
 
 CONSTANTS N,                  \* number of chunks
           SMs, Legals,        \* option values explored
           HEs, HAs, PPs, LVs, \* entry/asset template has [hash], public path set, legal comment present
-          LIHs                \* FALSE = the code as it is, TRUE = the candidate repair
+          LIHs, MIHs,         \* repairs (see Hash.tla)
+          DROPs,              \* the sets of ingredients left out (design: {})
+          CSSs                \* is chunk 1 a CSS chunk
 
 Chunks == 1..N
 Assets == {"x"}
 
-Opts == [hE : HEs, hK : (IF N > 2 THEN BOOLEAN ELSE {TRUE}), hA : HAs, pp : PPs, sm : SMs, legal : Legals, lv : LVs, lih : LIHs]
+Opts == [hE : HEs, hK : (IF N > 2 THEN BOOLEAN ELSE {TRUE}), hA : HAs, pp : PPs, sm : SMs, legal : Legals, lv : LVs, lih : LIHs, mih : MIHs,
+         drop : DROPs, css : CSSs]
 
 Graphs == {f \in [Chunks -> SUBSET Chunks] : \A c \in Chunks : c \notin f[c]}
 
 World(o, imp, aref) ==
   [ chunks |-> Chunks, assets |-> Assets, names |-> <<>>, imp |-> imp, aref |-> aref,
     hashedC |-> [c \in Chunks |-> IF c <= 2 THEN o.hE ELSE o.hK], hashedA |-> o.hA,
-    pp |-> o.pp, sm |-> o.sm, legal |-> o.legal, lih |-> o.lih,
+    pp |-> o.pp, sm |-> o.sm, legal |-> o.legal, lih |-> o.lih, mih |-> o.mih, drop |-> o.drop,
+    css |-> [c \in Chunks |-> o.css /\ c = 1],
     fake |-> [c \in Chunks |-> c = 1],
     code |-> [c \in Chunks |-> 0], parts |-> [c \in Chunks |-> 0], tmpl |-> [c \in Chunks |-> 0],
-    smap |-> [c \in Chunks |-> 0], legalv |-> [c \in Chunks |-> o.lv], ppv |-> 0,
+    smP |-> [c \in Chunks |-> 0], smM |-> [c \in Chunks |-> 0], smS |-> [c \in Chunks |-> 0],
+    legalv |-> [c \in Chunks |-> o.lv], ppv |-> 0, atpl |-> 0,
     abytes |-> [a \in Assets |-> 0] ]
 
 Edits(w) ==
-  {[k |-> kk, c |-> c] : kk \in {"code", "parts", "tmpl", "smap", "legal"}, c \in w.chunks}
-  \cup (IF w.pp THEN {[k |-> "pp"]} ELSE {})
+  {[k |-> kk, c |-> c] : kk \in {"code", "parts", "tmpl", "smP", "smM", "smS", "legal"}, c \in w.chunks}
+  \cup (IF w.pp THEN {[k |-> "pp"]} ELSE {[k |-> "ppon"]})
   \cup {[k |-> "asset", a |-> a] : a \in UsedAssets(w)}
+  \cup (IF UsedAssets(w) # {} THEN {[k |-> "atpl"]} ELSE {})
+  \cup {[k |-> "smmode", to |-> t] : t \in SMs \ {w.sm}}
+  \cup {[k |-> "legalmode", to |-> t] : t \in Legals \ {w.legal}}
   \cup UNION {{[k |-> "import", c |-> c, d |-> d] : d \in {x \in w.chunks : x # c /\ x \notin w.imp[c]}} : c \in w.chunks}
 
 \* the options are chosen in the initial state, the graph and the edit in one
@@ -48,10 +64,10 @@ Spec == Init /\ [][Next]_vars
 Chosen == w # NoWorld
 
 W2 == Apply1(w, e)
+Design == w.lih /\ w.mih /\ w.drop = {}
 
 \* all four properties in one pass (the files of both worlds are computed once)
-\* (for the design with the candidate repair; the code as it is is reported below)
-AllHold == (Chosen /\ w.lih) => Failing(w, W2) = {}
+AllHold == (Chosen /\ Design) => Failing(w, W2) = {}
 InvSamePathSameBytes == Chosen => SamePathSameBytes(w, W2)
 InvChangePropagates == Chosen => ChangePropagates(w, W2)
 InvRefsResolve == Chosen => (RefsResolve(w) /\ RefsResolve(W2))
@@ -60,10 +76,11 @@ InvNoPlaceholderSurvives == Chosen => (NoPlaceholderSurvives(w) /\ NoPlaceholder
 \* the edit really changes some emitted bytes in at least some worlds (the checks are not vacuous)
 Effective == {[p |-> f.path, b |-> f.q_bytes] : f \in Files(w)} # {[p |-> f.path, b |-> f.q_bytes] : f \in Files(W2)}
 
-\* candidate export for the transcription of the code as it is: which classes
-\* of (edit, options) falsify which invariant on the model (guard 3: these are
-\* candidates to be reproduced on the real code, not verdicts)
+\* export for the mutants (and for the transcription of the code before a
+\* repair): which classes of (edit, options) falsify which property on the
+\* model (guard 3: candidates to be reproduced on the real code, not verdicts)
+Variant == IF w.drop # {} THEN w.drop ELSE (IF ~w.lih THEN {"lih"} ELSE {}) \cup (IF ~w.mih THEN {"mih"} ELSE {})
 Report ==
-  LET F == IF Chosen /\ ~w.lih THEN Failing(w, W2) ELSE {}
-  IN F = {} \/ PrintT(<<"CASE", ToJson([edit |-> e.k, legal |-> w.legal, sm |-> w.sm, lv |-> w.legalv[1], failing |-> F])>>)
+  LET F == IF Chosen /\ ~Design THEN Failing(w, W2) ELSE {}
+  IN F = {} \/ PrintT(<<"CASE", ToJson([edit |-> e.k, legal |-> w.legal, sm |-> w.sm, lv |-> w.legalv[1], failing |-> F, variant |-> Variant])>>)
 =============================================================================
